@@ -8,6 +8,7 @@
 #include "common/checked.h"
 #include "common/models.h"
 #include "common/leak.h"
+#include "common/faultmode.h"
 
 #include <deque>
 #include <memory>
@@ -168,6 +169,7 @@ struct QImpl : IQ
 	Slot slots[kSlots];
 	std::vector<Handle> handles;
 
+	QImpl() { handles.reserve(4096); }
 	~QImpl() override { for(int i = 0; i < kSlots; ++i) destroyQueue(i); }
 	Queue & Q(int s) { return *slots[s].p; }
 	Handle H(int h) const { return h >= 0 && (size_t)h < handles.size() ? handles[h] : Handle(); }
@@ -253,7 +255,11 @@ struct QImpl : IQ
 	void doWait(int, std::false_type) {}
 	bool waitFor0(int slot) override { return doWaitFor0(slot, std::integral_constant<bool, Wait>()); }
 	void waitBlocking(int slot) override { doWait(slot, std::integral_constant<bool, Wait>()); }
-	void dqnPush(int slot) override { slots[slot].dqn.emplace_back(new DQN(&Q(slot))); }
+	void dqnPush(int slot) override {
+		slots[slot].dqn.reserve(8); // no reallocation (and no injected allocation failure) between creating and storing the object
+		std::unique_ptr<DQN> p(new DQN(&Q(slot)));
+		slots[slot].dqn.push_back(std::move(p));
+	}
 	void dqnPop(int slot) override { if(! slots[slot].dqn.empty()) slots[slot].dqn.pop_back(); }
 
 	void disp(Queue & q, const MEvent & e, std::integral_constant<int, 0>) { Tracked t(e.serial, e.value); q.dispatch(e.key, t); }
@@ -325,6 +331,20 @@ IQ * makeImpl(int cfg)
 
 // ---------------------------------------------------------------- model + interpreter
 
+// `lib->op(...)`: library call with the fault injector un-paused for the full expression; `impl->` keeps it paused
+struct LibProxy
+{
+	IQ * p = nullptr;
+	struct Scope
+	{
+		IQ * p;
+		explicit Scope(IQ * p_) : p(p_) { --faults().paused; }
+		~Scope() { ++faults().paused; }
+		IQ * operator -> () const { return p; }
+	};
+	Scope operator -> () const { return Scope(p); }
+};
+
 struct MQueue
 {
 	bool alive = false;
@@ -359,6 +379,8 @@ struct Interp
 	std::string prop;
 	Verdict & v;
 	std::unique_ptr<IQ> impl;
+	LibProxy lib;
+	FaultPlan * plan = nullptr;
 	MQueue q[kSlots];
 	std::vector<int> nodeCb, nodeKey;
 	std::vector<const std::vector<Op> *> cbBody;
@@ -388,6 +410,7 @@ struct Interp
 	std::string dom() const {
 		if(prop == "C08") return "C05,C13,C10,C08";
 		if(prop == "C11") return "C05,C11";
+		if(prop == "C09") return "C09";
 		return prop;
 	}
 
@@ -633,10 +656,10 @@ struct Interp
 	}
 	bool callImpl(int slot, FrameType type, bool withArgs) {
 		switch(type) {
-		case F_PROCESS: return impl->process(slot);
-		case F_ONE: return impl->processOne(slot);
-		case F_IF: return impl->processIf(slot, withArgs);
-		default: return impl->processUntil(slot, withArgs);
+		case F_PROCESS: return lib->process(slot);
+		case F_ONE: return lib->processOne(slot);
+		case F_IF: return lib->processIf(slot, withArgs);
+		default: return lib->processUntil(slot, withArgs);
 		}
 	}
 
@@ -647,7 +670,7 @@ struct Interp
 		f.batch.push_back(e);
 		frames.push_back(f);
 		(void)viaQueuedEvent;
-		impl->dispatchDirect(slot, e);
+		lib->dispatchDirect(slot, e);
 		closeDirect();
 	}
 	void closeDirect() {
@@ -661,11 +684,111 @@ struct Interp
 	// ---- ops
 
 	void exec(const std::vector<Op> & ops, int depth, int self) {
+		int index = 0;
 		for(const Op & op : ops) {
 			if(failed) return;
-			execOp(op, depth, self);
+			if(depth == 0 && plan) execWithFaults(op, index);
+			else execOp(op, depth, self);
 			if(depth == 0 && ! failed) quiescent();
+			++index;
 		}
+	}
+
+	static bool isProcessing(int kind) { return kind == Q_PROCESS || kind == Q_PROCESSONE || kind == Q_PROCESSIF || kind == Q_PROCESSUNTIL || kind == Q_TAKE || kind == Q_DISPATCH; }
+
+	// C09 (see DESIGN): strong guarantee for enqueue / peekEvent / listener management / copies; a processing call that throws
+	// discards at most the events it had taken, never dispatches them again, and leaves emptiness reporting correct
+	void execWithFaults(const Op & op, int index) {
+		struct Snap { MQueue q[kSlots]; std::vector<int> nodeCb, nodeKey; size_t bodies; int nextSerial; } snap;
+		for(int i = 0; i < kSlots; ++i) snap.q[i] = q[i];
+		snap.nodeCb = nodeCb; snap.nodeKey = nodeKey; snap.bodies = cbBody.size(); snap.nextSerial = nextSerial;
+		const size_t depth0 = frames.size();
+		bool nonEmpty = false;
+		for(int i = 0; i < kSlots; ++i) if(q[i].alive && ! q[i].pending.empty()) nonEmpty = true;
+		int caught = 0;
+		{
+			FaultArm arm(plan, index);
+			try { execOp(op, 0, -1); }
+			catch(const Injected &) { caught = 1; }
+			catch(const std::bad_alloc &) { caught = 2; }
+			catch(const DeadlockDetected &) { throw; }
+			catch(...) { fail("fault.foreign", "C09", "an exception of a different type than the injected one reached the caller"); }
+		}
+		if(! caught) return;
+		if(faults().fired == 0) { fail("fault.spurious", "C09", "an exception reached the caller although no fault was injected"); return; }
+		++plan->fired;
+		plan->firedKind = faults().lastKind;
+		auto it = plan->at.find(index);
+		if(it != plan->at.end() && it->second > 1 && nonEmpty) plan->firedAtKGreater1OnNonEmpty = true;
+		log << "[fault " << (caught == 1 ? "Injected" : "bad_alloc") << "]";
+		const int slot = pickLive(op.c & 3);
+		if(op.kind == Q_COPYASSIGN && slot >= 0) {
+			// a failed copy of a container leaves its source untouched and its destination VALID (not necessarily unchanged):
+			// the destination may only report listeners it had or copies of the source's, and must be destructible without a leak
+			frames.resize(depth0);
+			const int src = pickLive(op.b);
+			for(int i = 0; i < kSlots; ++i) q[i] = snap.q[i];
+			nodeCb = snap.nodeCb; nodeKey = snap.nodeKey; cbBody.resize(snap.bodies); nextSerial = snap.nextSerial;
+			for(int k = 0; k < kKeys && ! failed; ++k) {
+				std::vector<std::pair<int, int> > got;
+				impl->forEach(slot, k, got);
+				for(const auto & g : got) {
+					bool known = false;
+					for(int n : q[slot].lists[k].nodes) if(nodeCb[n] == g.second) known = true;
+					if(src >= 0) for(int n : q[src].lists[k].nodes) if(nodeCb[n] == g.second) known = true;
+					if(! known) { fail("fault.copyassign.invented", "C09", "after a failed copy assignment the destination reports a listener that neither it nor the source had"); break; }
+				}
+			}
+			if(! failed) {
+				q[slot] = MQueue();
+				impl->destroyQueue(slot);
+				bool any = false;
+				for(int i = 0; i < kSlots; ++i) if(q[i].alive) any = true;
+				if(! any) { q[slot].alive = true; impl->newQueue(slot, 0); }
+			}
+			return;
+		}
+		if(! isProcessing(op.kind)) {
+			frames.resize(depth0);
+			for(int i = 0; i < kSlots; ++i) q[i] = snap.q[i];
+			nodeCb = snap.nodeCb; nodeKey = snap.nodeKey; cbBody.resize(snap.bodies); nextSerial = snap.nextSerial;
+			if(impl->handleCount() != nodeCb.size()) fail("fault.handles", "C09", "a failed listener addition still produced a handle");
+			return;
+		}
+		// events the faulted call had taken and not finished dispatching: they may be gone, and must never be dispatched again
+		std::vector<MEvent> mayBeGone;
+		for(size_t fi = depth0; fi < frames.size(); ++fi) {
+			const ProcFrame & f = frames[fi];
+			if(f.type == F_DIRECT) continue;
+			for(const MEvent & e : f.leftover) mayBeGone.push_back(e);
+			for(size_t i = f.pos; i < f.batch.size(); ++i) mayBeGone.push_back(f.batch[i]);
+		}
+		frames.resize(depth0);
+		if(slot < 0 || failed) return;
+		// drain probe: what is still queued = a subsequence of mayBeGone (in order) followed by exactly the model's pending events
+		std::vector<MEvent> got;
+		const bool emptyBefore = impl->emptyQ(slot);
+		for(int guard = 0; guard < 200; ++guard) {
+			MEvent e; bool intact = false;
+			if(! impl->take(slot, e, intact, false)) break;
+			if(! intact) { fail("fault.payload", "C09", "an event that survived the exception has a damaged payload"); return; }
+			got.push_back(e);
+		}
+		if(emptyBefore != got.empty()) { fail("fault.empty", "C09,C11", "after the exception emptyQueue() returned " + std::to_string(emptyBefore) + " but " + std::to_string(got.size()) + " event(s) were still queued"); return; }
+		const std::deque<MEvent> & pend = q[slot].pending;
+		if(got.size() < pend.size()) { fail("fault.lost", "C09", "the exception lost " + std::to_string(pend.size() - got.size()) + " event(s) that the failed call had not taken"); return; }
+		const size_t extra = got.size() - pend.size();
+		for(size_t i = 0; i < pend.size(); ++i) {
+			if(got[extra + i].serial != pend[i].serial) { fail("fault.order", "C09", "events not taken by the failed call are no longer in order (or one was lost): found #" + std::to_string(got[extra + i].serial) + " where #" + std::to_string(pend[i].serial) + " was expected"); return; }
+		}
+		size_t m = 0;
+		for(size_t i = 0; i < extra; ++i) {
+			while(m < mayBeGone.size() && mayBeGone[m].serial != got[i].serial) ++m;
+			if(m >= mayBeGone.size()) { fail("fault.resurrected", "C09", "event #" + std::to_string(got[i].serial) + " is queued after the exception although it was neither pending nor held by the failed call (dispatched twice?)"); return; }
+			++m;
+		}
+		q[slot].pending.clear();
+		if(! impl->emptyQ(slot)) fail("fault.empty", "C09,C11", "queue not empty after every remaining event was taken");
 	}
 
 	bool insideIfUntil() const {
@@ -688,7 +811,7 @@ struct Interp
 			insertPending(m.pending, e, false);
 			if(! frames.empty()) enqueuedInCall = true;
 			if(consumed > 0) slotReuse = true;
-			impl->enqueue(slot, e, (op.c >> 2) & 1);
+			lib->enqueue(slot, e, (op.c >> 2) & 1);
 			break;
 		}
 		case Q_PROCESS: case Q_PROCESSONE: case Q_PROCESSIF: case Q_PROCESSUNTIL: {
@@ -703,7 +826,7 @@ struct Interp
 			if(! impl->supportsPeek()) break;
 			if(! frames.empty() && insideIfUntil()) { log << "(skip)"; break; }
 			MEvent got; bool intact = false;
-			bool r = impl->peek(slot, got, intact);
+			bool r = lib->peek(slot, got, intact);
 			bool expect = ! m.pending.empty();
 			if(r != expect) { fail("queue.peek.result", dom(), "peekEvent returned " + std::to_string(r) + ", model has " + std::to_string(m.pending.size()) + " pending"); break; }
 			if(r) {
@@ -727,7 +850,7 @@ struct Interp
 				ProcFrame f; f.type = F_DIRECT; f.slot = slot; f.batch.push_back(e);
 				frames.push_back(f);
 			}
-			bool r = impl->take(slot, got, intact, dispatchIt);
+			bool r = lib->take(slot, got, intact, dispatchIt);
 			if(expect && dispatchIt) { ++consumed; closeDirect(); }
 			else if(expect) ++consumed;
 			if(failed) break;
@@ -744,7 +867,7 @@ struct Interp
 			std::vector<MEvent> gone(m.pending.begin(), m.pending.end());
 			m.pending.clear();
 			if(! gone.empty()) clearedNonEmpty = true;
-			impl->clear(slot);
+			lib->clear(slot);
 			consumed += (long)gone.size();
 			// C08: the discarded events' arguments are released before clearEvents returns
 			for(const MEvent & e : gone) {
@@ -768,7 +891,7 @@ struct Interp
 		}
 		case Q_WAITFOR0: {
 			if(! impl->supportsWait()) break;
-			bool r = impl->waitFor0(slot);
+			bool r = lib->waitFor0(slot);
 			bool expect = ! expectEmpty(slot) && m.dqn == 0;
 			log << "=" << r;
 			if(r != expect) {
@@ -779,11 +902,11 @@ struct Interp
 		case Q_WAIT: {
 			// only when it cannot block
 			if(! impl->supportsWait() || expectEmpty(slot) || m.dqn != 0) break;
-			impl->waitBlocking(slot);
+			lib->waitBlocking(slot);
 			break;
 		}
-		case Q_DQNPUSH: if(m.dqn < 3) { ++m.dqn; impl->dqnPush(slot); } break;
-		case Q_DQNPOP: if(m.dqn > 0) { --m.dqn; impl->dqnPop(slot); } break;
+		case Q_DQNPUSH: if(m.dqn < 3) { ++m.dqn; lib->dqnPush(slot); } break;
+		case Q_DQNPOP: if(m.dqn > 0) { --m.dqn; lib->dqnPop(slot); } break;
 		case Q_DISPATCH: {
 			if((int)frames.size() >= kMaxDepth || fuel <= 0) break;
 			MEvent e;
@@ -799,8 +922,8 @@ struct Interp
 			int cb = (int)cbBody.size() - 1;
 			int node = (int)nodeCb.size();
 			nodeCb.push_back(cb); nodeKey.push_back(key);
-			if(op.kind == Q_APPENDL) { m.lists[key].append(node); impl->appendL(slot, key, cb); }
-			else { m.lists[key].prepend(node); impl->prependL(slot, key, cb); }
+			if(op.kind == Q_APPENDL) { m.lists[key].append(node); lib->appendL(slot, key, cb); }
+			else { m.lists[key].prepend(node); lib->prependL(slot, key, cb); }
 			log << "(k" << key << ":n" << node << ")";
 			break;
 		}
@@ -814,7 +937,7 @@ struct Interp
 			int node = (int)nodeCb.size();
 			nodeCb.push_back(cb); nodeKey.push_back(key);
 			m.lists[key].insertBefore(node, h);
-			impl->insertL(slot, key, cb, h);
+			lib->insertL(slot, key, cb, h);
 			break;
 		}
 		case Q_REMOVEL: {
@@ -824,7 +947,7 @@ struct Interp
 			int hs, hk;
 			if(findNode(h, hs, hk) && hs != slot) { log << "(skip-foreign)"; break; }
 			bool expect = m.lists[key].remove(h);
-			bool r = impl->removeL(slot, key, h);
+			bool r = lib->removeL(slot, key, h);
 			log << "(h" << h << ")=" << r;
 			if(r != expect) fail("queue.removeListener", dom(), "removeListener returned " + std::to_string(r) + ", model says " + std::to_string(expect));
 			break;
@@ -834,7 +957,7 @@ struct Interp
 			if(d < 0) break;
 			q[d] = MQueue();
 			q[d].alive = true;
-			impl->newQueue(d, op.b);
+			lib->newQueue(d, op.b);
 			if(op.b & 3) dirty = true;
 			break;
 		}
@@ -843,7 +966,7 @@ struct Interp
 			if(d < 0) break;
 			q[d] = MQueue();
 			q[d].alive = true;
-			impl->copyCtor(slot, d, op.b);
+			lib->copyCtor(slot, d, op.b);
 			if(op.b & 3) dirty = true;
 			if(! m.pending.empty()) copiedWithPending = true;
 			adoptCopy(d, slot);
@@ -853,7 +976,7 @@ struct Interp
 		case Q_COPYASSIGN: {
 			int src = pickLive(op.b);
 			if(src < 0 || slotBusy(slot) || ! m.pending.empty() || m.dqn) break; // see DESIGN C10: destination without pending events
-			impl->copyAssign(slot, src);
+			lib->copyAssign(slot, src);
 			if(src != slot) {
 				for(int k = 0; k < kKeys; ++k) m.lists[k].nodes.clear();
 				adoptCopy(slot, src);
@@ -868,7 +991,7 @@ struct Interp
 			q[d] = MQueue();
 			q[d].alive = true;
 			for(int k = 0; k < kKeys; ++k) { q[d].lists[k] = m.lists[k]; }
-			impl->moveCtor(slot, d, op.b);
+			lib->moveCtor(slot, d, op.b);
 			if(op.b & 3) dirty = true;
 			adoptMovedFrom(slot, d);
 			transferStage = 1;
@@ -878,7 +1001,7 @@ struct Interp
 			int src = pickLive(op.b);
 			if(src < 0 || src == slot || slotBusy(slot) || slotBusy(src) || ! m.pending.empty() || m.dqn) break;
 			for(int k = 0; k < kKeys; ++k) m.lists[k] = q[src].lists[k];
-			impl->moveAssign(slot, src);
+			lib->moveAssign(slot, src);
 			adoptMovedFrom(src, slot);
 			transferStage = 1;
 			break;
@@ -887,7 +1010,7 @@ struct Interp
 			int other = pickLive(op.b);
 			if(other < 0 || slotBusy(slot) || slotBusy(other)) break;
 			for(int k = 0; k < kKeys; ++k) std::swap(m.lists[k], q[other].lists[k]);
-			impl->swapQ(slot, other);
+			lib->swapQ(slot, other);
 			transferStage = 1;
 			break;
 		}
@@ -898,7 +1021,7 @@ struct Interp
 			std::vector<MEvent> gone(m.pending.begin(), m.pending.end());
 			if(! gone.empty()) destroyedNonEmpty = true;
 			q[slot] = MQueue();
-			impl->destroyQueue(slot);
+			lib->destroyQueue(slot);
 			for(const MEvent & e : gone) {
 				int alive = ledger().live(kPayloadBase + e.serial);
 				if(alive != 0) { fail("ledger.destroyed.alive", "C08", "queue destroyed but payload of pending event #" + std::to_string(e.serial) + " is still alive"); break; }
@@ -981,10 +1104,12 @@ struct Interp
 	void run() {
 		const int cfg = prog.params.empty() ? 0 : ((prog.params[0] % kConfigs) + kConfigs) % kConfigs;
 		impl.reset(makeImpl(cfg));
+		lib.p = impl.get();
 		ord = impl->ordered();
 		q[0].alive = true;
 		impl->newQueue(0, prog.params.size() > 1 ? prog.params[1] : 0);
 		try {
+			FaultPause harnessCode;
 			exec(prog.ops, 0, -1);
 			if(! failed) finalDrain();
 		}
@@ -1003,8 +1128,18 @@ struct Interp
 	}
 };
 
-void deliverListener(int cb, int key, int serial, int value, bool intact) { if(g_q) g_q->onListener(cb, key, serial, value, intact); }
-bool deliverPredicate(int serial, int value, bool intact, bool hasArgs) { return g_q ? g_q->onPredicate(serial, value, intact, hasArgs) : false; }
+void deliverListener(int cb, int key, int serial, int value, bool intact)
+{
+	faults().point(1); // a listener may throw on entry (C09)
+	FaultPause fp, fp2;
+	if(g_q) g_q->onListener(cb, key, serial, value, intact);
+}
+bool deliverPredicate(int serial, int value, bool intact, bool hasArgs)
+{
+	faults().point(5); // a predicate may throw (C09)
+	FaultPause fp, fp2;
+	return g_q ? g_q->onPredicate(serial, value, intact, hasArgs) : false;
+}
 
 // ---------------------------------------------------------------- grammar
 
@@ -1012,7 +1147,7 @@ Grammar makeGrammar(const std::string & prop)
 {
 	Grammar g;
 	const bool orderedOnly = prop == "C13";
-	const bool multi = prop == "C10" || prop == "C08";
+	const bool multi = prop == "C10" || prop == "C08" || prop == "C09";
 	// params[0]: configuration. C05/C11: plain queues; C13: ordered; C08/C10: all
 	if(orderedOnly) g.params = { ArgSpec(4, 7), ArgSpec(0, 3) };
 	else if(multi) g.params = { ArgSpec(0, 7), ArgSpec(0, 3) };
@@ -1098,7 +1233,7 @@ const Grammar & grammar(const std::string & prop)
 
 long g_caseCounter = 0;
 
-Verdict run(const Program & p, const std::string & prop)
+Verdict runOnce(const Program & p, const std::string & prop, FaultPlan * plan)
 {
 	Verdict v;
 	v.trace.reserve(4096);
@@ -1109,6 +1244,7 @@ Verdict run(const Program & p, const std::string & prop)
 	LeakScope scope;
 	{
 		Interp in(p, prop, v);
+		in.plan = plan;
 		g_q = &in;
 		in.run();
 		g_q = nullptr;
@@ -1138,7 +1274,14 @@ Verdict run(const Program & p, const std::string & prop)
 		v.classes.push_back("lsan_confirmation_run");
 		if(confirmLeak()) v.fail("lsan.leak", "C08", "LeakSanitizer: memory allocated during the case is unreachable after every queue was destroyed", "lsan.leak");
 	}
+	if(! v.ok && plan && ! plan->counting && v.prop == "C08") v.prop = "C08,C09";
 	return v;
+}
+
+Verdict run(const Program & p, const std::string & prop)
+{
+	if(prop != "C09") return runOnce(p, prop, nullptr);
+	return faultOrchestrate(p, [&](const Program & q2, FaultPlan & plan, Verdict & out) { out = runOnce(q2, prop, &plan); });
 }
 
 } // namespace
